@@ -159,7 +159,7 @@ def dateValid : List Nat → Bool
   | _ => false
 
 def dateStr (d : List Nat) : String :=
-  if dateValid d then "-".intercalate (d.map toString) else "invalid-date"
+  (if dateValid d then "-".intercalate (d.map toString) else "invalid-date") ++ s!" unix={Icc.createdAtUnix d}"
 
 def headerStr (h : Icc.Header) : String :=
   let l1 := [h.size, h.cmm, h.major, h.minorRev, h.deviceClass, h.colorSpace, h.pcs]
